@@ -187,3 +187,51 @@ def sany(module, spec_dir=SPEC_DIR):
             '*** Errors' in out:
         raise MachineryError('SANY rejected %s:\n%s' % (module, out[-2000:]))
     return out
+
+
+def write_cfg(path, spec='Spec', constants=None, invariants=(), properties=(),
+              constraints=(), action_constraints=(), view=None, init=None,
+              next_=None, postcondition=None):
+    """Write a TLC configuration file (one INVARIANT line per clause)."""
+    lines = []
+    if init:
+        lines += ['INIT %s' % init, 'NEXT %s' % next_]
+    else:
+        lines.append('SPECIFICATION %s' % spec)
+    if constants:
+        lines.append('CONSTANTS')
+        for k, v in constants.items():
+            if isinstance(v, str) and v.startswith('<-'):
+                lines.append('  %s %s' % (k, v))
+            else:
+                lines.append('  %s = %s' % (k, tla_value(v)))
+    for x in invariants:
+        lines.append('INVARIANT %s' % x)
+    for x in properties:
+        lines.append('PROPERTY %s' % x)
+    for x in constraints:
+        lines.append('CONSTRAINT %s' % x)
+    for x in action_constraints:
+        lines.append('ACTION_CONSTRAINT %s' % x)
+    if view:
+        lines.append('VIEW %s' % view)
+    if postcondition:
+        lines.append('POSTCONDITION %s' % postcondition)
+    lines.append('CHECK_DEADLOCK FALSE')
+    with open(path, 'w') as fh:
+        fh.write('\n'.join(lines) + '\n')
+    return path
+
+
+def tla_value(v):
+    if isinstance(v, bool):
+        return 'TRUE' if v else 'FALSE'
+    if isinstance(v, int):
+        return str(v)
+    if isinstance(v, str):
+        return '"%s"' % v
+    if isinstance(v, (set, frozenset)):
+        return '{' + ', '.join(tla_value(x) for x in sorted(v, key=repr)) + '}'
+    if isinstance(v, (list, tuple)):
+        return '<<' + ', '.join(tla_value(x) for x in v) + '>>'
+    raise ValueError(v)
